@@ -279,7 +279,9 @@ def _verify_variant(r, unit, cpath, ranges, vname, defines, bdir, tier):
         r.backend = 'cbmc 6.11 ' + ' '.join(unit.solver)
     cmd = ['cbmc'] + flags + ['--json-ui', '--trace', ib]
     r.cmds.append(' '.join(cmd))
-    rc, out, err, dt = run(cmd, unit.timeout, os.path.join(bdir, vname + '.cbmc.json'))
+    # thorough tier: larger bounds need more time (and the machine may be shared)
+    tmo = unit.timeout * (int(os.environ.get('VERIF_THOROUGH_TIMEOUT_FACTOR', '8')) if tier == 'thorough' else 1)
+    rc, out, err, dt = run(cmd, tmo, os.path.join(bdir, vname + '.cbmc.json'))
     r.seconds = dt
     if rc not in (0, 10):
         raise ToolError('cbmc rc=%d on %s/%s: %s' % (rc, unit.name, vname, (err or out)[-800:]))
@@ -344,7 +346,7 @@ def _verify_variant(r, unit, cpath, ranges, vname, defines, bdir, tier):
         cmd = ['cbmc', '--no-malloc-may-fail', '--no-standard-checks'] + list(unit.flags) + unw + \
               (['--object-bits', str(unit.obj_bits)] if unit.obj_bits else []) + ['--json-ui', cgb]
         r.cmds.append(' '.join(cmd))
-        rc, out, err, dt = run(cmd, unit.timeout, os.path.join(bdir, vname + '.canary.json'))
+        rc, out, err, dt = run(cmd, tmo, os.path.join(bdir, vname + '.canary.json'))
         cres, _, _ = _parse_cbmc_json(out)
         if cres is None:
             raise ToolError('canary run gave no result on %s/%s' % (unit.name, vname))
@@ -362,7 +364,7 @@ def _verify_variant(r, unit, cpath, ranges, vname, defines, bdir, tier):
               (['--object-bits', str(unit.obj_bits)] if unit.obj_bits else []) + \
               ['--cover', 'location', '--json-ui', ib]
         r.cmds.append(' '.join(cmd))
-        rc, out, err, dt = run(cmd, unit.timeout, os.path.join(bdir, vname + '.cover.json'))
+        rc, out, err, dt = run(cmd, tmo, os.path.join(bdir, vname + '.cover.json'))
         goals, _, _ = _parse_cbmc_json(out)
         if not goals or 'goals' not in goals:
             raise ToolError('cover run gave no goals on %s/%s' % (unit.name, vname))
